@@ -283,10 +283,81 @@ package compactindex
 //@   modifies entries, bitmap, consumed(rd)
 //@   loop 0 invariant 0 <= rangeidx0
 
+// ---- eytzinger layout: subtree sizes of the implicit tree (anc and its lemmas are in theories/heap_tree.vcl) ----
+// sz(n, k) = number of nodes of the subtree rooted at k (1-based) in the implicit tree with n nodes.
+
+//@ spec func sz(n int, k int) int = ite(k >= 1 && k <= n, 1 + sz(n, 2*k) + sz(n, 2*k+1), 0)
+
+//@ lemma szNonneg(n int, k int)
+//@   requires k >= 1
+//@   ensures sz(n, k) >= 0
+//@   decreases ite(k <= n, n + 1 - k, 0)
+//@   induct szNonneg(n, 2*k)
+//@   induct szNonneg(n, 2*k+1)
+//@   use unfold(sz(n, k))
+
+//@ lemma ancDisjoint(j int, k int)
+//@   requires k >= 1
+//@   ensures !(anc(j, 2*k) && anc(j, 2*k+1))
+//@   decreases ite(j >= 0, j, 0)
+//@   induct ancDisjoint(j/2, k)
+//@   use unfold(anc(j, 2*k)) && unfold(anc(j, 2*k+1)) && unfold(anc(j/2, 2*k)) && unfold(anc(j/2, 2*k+1))
+
+//@ lemma szStep(n int, k int)
+//@   requires n >= 1 && k >= 1
+//@   ensures sz(n, k) == sz(n-1, k) + ite(anc(n, k), 1, 0)
+//@   decreases ite(k <= n, n + 1 - k, 0)
+//@   induct szStep(n, 2*k)
+//@   induct szStep(n, 2*k+1)
+//@   use unfold(sz(n, k)) && unfold(sz(n-1, k)) && unfold(anc(n, k)) && ancDisjoint(n, k) && (n > k ==> ancSplit(n, k))
+//@   use unfold(sz(n, 2*k)) && unfold(sz(n, 2*k+1)) && unfold(sz(n-1, 2*k)) && unfold(sz(n-1, 2*k+1))
+
+//@ lemma szRoot(n int)
+//@   requires n >= 0
+//@   ensures sz(n, 1) == n
+//@   decreases n
+//@   induct szRoot(n-1)
+//@   use unfold(sz(n, 1)) && (n >= 1 ==> szStep(n, 1)) && (n >= 1 ==> ancRoot(n))
+
+// lo(n, k) = in-order rank of the first node of the subtree rooted at k; node k itself has rank lo(n, k) + sz(n, 2k).
+//@ spec func lo(n int, k int) int = ite(k <= 1, 0, ite(k % 2 == 0, lo(n, k/2), lo(n, k/2) + sz(n, k-1) + 1))
+
+// Nesting: the in-order ranks of the subtree of j lie inside those of any ancestor k.
+//@ lemma loRange(n int, j int, k int)
+//@   requires k >= 1 && j <= n && anc(j, k)
+//@   ensures lo(n, k) <= lo(n, j) && lo(n, j) + sz(n, j) <= lo(n, k) + sz(n, k)
+//@   decreases ite(j >= 0, j, 0)
+//@   induct loRange(n, j/2, k)
+//@   use unfold(anc(j, k)) && unfold(lo(n, j)) && unfold(sz(n, j/2)) && szNonneg(n, j) && szNonneg(n, 2*(j/2)) && szNonneg(n, 2*(j/2)+1)
+
+// Search-tree order of the layout: everything below the left child of k has a smaller rank than k, below the right child a larger one.
+//@ lemma eytzOrder(n int, j int, k int)
+//@   requires k >= 1 && k <= n && 1 <= j && j <= n
+//@   ensures anc(j, 2*k) ==> lo(n, j) + sz(n, 2*j) < lo(n, k) + sz(n, 2*k)
+//@   ensures anc(j, 2*k+1) ==> lo(n, j) + sz(n, 2*j) > lo(n, k) + sz(n, 2*k)
+//@   use (anc(j, 2*k) ==> loRange(n, j, 2*k)) && (anc(j, 2*k+1) ==> loRange(n, j, 2*k+1))
+//@   use unfold(sz(n, j)) && unfold(lo(n, 2*k)) && unfold(lo(n, 2*k+1)) && szNonneg(n, 2*j) && szNonneg(n, 2*j+1)
+
+// eytzinger(in, out, i, k) copies the next sz(len(in), k) elements of `in`, starting at i, into the subtree rooted at k:
+// node j of that subtree receives the element of in-order rank lo(n, j) + sz(n, 2j); all other nodes keep their value.
+//@ func eytzinger
+//@   mode int
+//@   requires k >= 1 && 0 <= i && i + sz(len(in), k) <= len(in) && len(in) <= len(out) && len(in) <= 2305843009213693952
+//@   requires i == lo(len(in), k) && ref(in) != ref(out)
+//@   modifies out
+//@   ensures result == i + sz(len(in), k)
+//@   ensures forall j int :: 1 <= j && j <= len(in) && anc(j, k) ==> out[j-1] == in[lo(len(in), j) + sz(len(in), 2*j)]
+//@   ensures forall j int :: 1 <= j && j <= len(out) && !anc(j, k) ==> out[j-1] == old(out[j-1])
+//@   use szNonneg(len(in), 2*k) && szNonneg(len(in), 2*k+1) && unfold(sz(len(in), k))
+//@   use unfold(lo(len(in), 2*k)) && unfold(lo(len(in), 2*k+1)) && ancDisjoint(k, k) && unfold(anc(k, k))
+//@   use forall j int :: j > k ==> ancSplit(j, k)
+//@   use forall j int :: ancBelow(j, k) && ancBelow(j, 2*k) && ancBelow(j, 2*k+1) && ancDisjoint(j, k)
+
 //@ func sortWithCompare
 //@   mode int
-//@   requires compare != nil
+//@   requires compare != nil && len(a) <= 2305843009213693952
 //@   modifies a
+//@   use szRoot(len(a)) && unfold(lo(len(a), 1))
 
 //@ func (*tempBucket) mine
 //@   mode int
